@@ -29,11 +29,11 @@ def isDecor (t : String) : Bool :=
 def stripDecor (ws : List String) : List String := ws.filter (!isDecor ·)
 /-- "a,b,c" -> entity addresses -/
 def parseEnts (s : String) : List (List Nat) := (s.splitOn ",").map parseEnt
-/-- a discovery notification that announces entities as removed: the device information entity [0] is kept, every other
-    listed entity goes with the full cascade (HEAD of /repo) -/
+/-- a discovery notification that announces entities as removed: entry by entry `Reg.removeEntity` (the device
+    information entity [0] is kept, bare entities go too) -/
 def dropEntities (c : Cfg) (s : St) (p : Nat) (ents : List (List Nat)) : St :=
-  ents.foldl (fun s e => if e = [0] then s else dropEntity c s p e) s
-/-- an entity announced as added again: its features are known again -/
+  ents.foldl (fun s e => removeEntity c s p e) s
+/-- an entity announced as added with its features: its features are known (again), it is no longer bare -/
 def addEntity (s : St) (p : Nat) (ent : List Nat) : St :=
-  if ((s.rem p).map (·.ent)).contains ent then s
-  else { s with rem := fun q => if q = p then s.rem p ++ remoteFeats.filter (·.ent = ent) else s.rem q }
+  { s with rem := fun q => if q = p then (s.rem p).filter (fun f => !(f.ent = ent)) ++ remoteFeats.filter (·.ent = ent) else s.rem q,
+           bare := fun q => if q = p then (s.bare p).filter (· ≠ ent) else s.bare q }
